@@ -116,6 +116,40 @@ def run_real(spec, captures=True):
             out["parts"].append((len(np.asarray(g.get_full_penalty()).ravel()), [float(v) for v in g.get_additional_penalties()]))
         out["free_labels"] = list(labels)
         out["opt"] = opt
+        # The objective is a function of the scheme and the parameter values: (a) a second optimiser built from the SAME
+        # scheme object gives the same vector (round-2 seeded change C02-6: transposed data handed over as a view, so the
+        # first optimiser multiplied the weight into the caller's data); (b) an optimisation group evaluated at parameter
+        # sets that differ only in FIXED parameters gives the vector of the current values (seeded change C02-5: a cache
+        # keyed on the free parameters only).
+        out["second_optimizer_penalty"] = None
+        out["fixed_change"] = None
+        try:
+            opt2 = Optimizer(scheme, verbose=False, raise_exception=True)
+            opt2._free_parameter_labels = labels
+            out["second_optimizer_penalty"] = [float(v) for v in np.asarray(opt2.objective_function(np.array(x0, dtype=float))).ravel()]
+            fixed = [p for p in scheme.parameters.all() if p.expression is None and p.value not in (0.0,)]
+            if fixed:
+                from glotaran.optimization.optimization_group import OptimizationGroup
+                p_a = scheme.parameters.copy()
+                p_b = scheme.parameters.copy()
+                lab = fixed[len(fixed) // 2].label
+                p_a.get(lab).vary = False            # the parameter is fixed in both sets and has different values
+                p_b.get(lab).vary = False
+                p_b.get(lab).value = p_b.get(lab).value * 2.0
+                groups = list(scheme.model.get_dataset_groups().values())
+                stale, fresh = [], []
+                for dg in groups:
+                    og = OptimizationGroup(scheme, dg)
+                    og.calculate(p_a)
+                    og.calculate(p_b)
+                    stale.append(np.asarray(og.get_full_penalty(), dtype=float).ravel())
+                    og2 = OptimizationGroup(scheme, dg)
+                    og2.calculate(p_b)
+                    fresh.append(np.asarray(og2.get_full_penalty(), dtype=float).ravel())
+                out["fixed_change"] = {"label": lab, "after_other": [float(v) for v in np.concatenate(stale)],
+                                       "fresh": [float(v) for v in np.concatenate(fresh)]}
+        except Exception as e:  # noqa: BLE001 — reported by judge as a violation of its own kind
+            out["sequence_error"] = f"{type(e).__name__}: {str(e)[:120]}"
         return out
     finally:
         ep.EstimationProvider.calculate_residual = orig
@@ -477,6 +511,19 @@ def judge(ck, b, ans):
             return
         raise core.HarnessError(ref)
     pen = real["penalty"]
+    if real.get("sequence_error"):
+        ck.violation("objective-sequence-raises", f"a second optimiser / optimisation group on the same scheme raised {real['sequence_error']}", light)
+    if real.get("second_optimizer_penalty") is not None and real["second_optimizer_penalty"] != pen:
+        ck.violation("objective-differs:second-optimizer-on-same-scheme", "a second Optimizer built from the same scheme object gives "
+                     "another penalty vector at the same parameters (the first one changed the caller's scheme / data)",
+                     {**light, "first": pen, "second": real["second_optimizer_penalty"]})
+    fc = real.get("fixed_change")
+    if fc is not None:
+        ck.count("oracle:fixed-parameter-change-on-one-group")
+        if fc["after_other"] != fc["fresh"]:
+            ck.violation("objective-differs:stale-after-fixed-parameter-change", f"OptimizationGroup.calculate(p) after a calculate at parameters "
+                         f"differing only in the fixed parameter {fc['label']!r} returns another penalty than a fresh group at p",
+                         {**light, **fc})
     if not vec_close(pen, ref):
         key = "objective-differs"
         tags = classify(spec)
